@@ -675,6 +675,27 @@ func (x *c03Ctx) tamperMutants(s *chain.Sim, p chain.BlockPlan) []mutant {
 			sp.Signatures = append(sp.Signatures, sp.Signatures[rng.Intn(len(sp.Signatures))])
 			return true
 		})
+		// a multi-signature policy satisfied by ONE signer: every signature replaced by a copy of the first (and of the
+		// last) — each copy is a valid signature over the real sighash, but the other co-signers never signed
+		witness("v2-sig-replaced-by-copy:first", func(sp *types.SatisfiedPolicy) bool {
+			if len(sp.Signatures) < 2 || sp.Signatures[1] == sp.Signatures[0] || !c03DistinctUCKeys(sp.Policy) {
+				return false
+			}
+			for k := 1; k < len(sp.Signatures); k++ {
+				sp.Signatures[k] = sp.Signatures[0]
+			}
+			return true
+		})
+		witness("v2-sig-replaced-by-copy:last", func(sp *types.SatisfiedPolicy) bool {
+			n := len(sp.Signatures)
+			if n < 2 || sp.Signatures[n-1] == sp.Signatures[0] || !c03DistinctUCKeys(sp.Policy) {
+				return false
+			}
+			for k := 0; k < n-1; k++ {
+				sp.Signatures[k] = sp.Signatures[n-1]
+			}
+			return true
+		})
 		witness("v2-sig-append", func(sp *types.SatisfiedPolicy) bool {
 			at := c03Attacker(s, rng)
 			sp.Signatures = append(sp.Signatures, at.Keys[0].SignHash(s.Tip.InputSigHash(t)))
@@ -2371,4 +2392,22 @@ func runC03(c *fw.Ctx) {
 		c.Compare(x.ops, x.outs)
 	}
 	res.Sample(map[string]any{"tamper_kinds": fw.SortedKeys(res.Distribution)})
+}
+
+// c03DistinctUCKeys: p is an unlock-conditions policy whose keys are pairwise distinct (a key listed twice can
+// legitimately satisfy two of the required signatures on its own).
+func c03DistinctUCKeys(p types.SpendPolicy) bool {
+	uc, ok := p.Type.(types.PolicyTypeUnlockConditions)
+	if !ok {
+		return false
+	}
+	seen := map[string]bool{}
+	for _, k := range uc.PublicKeys {
+		id := string(k.Algorithm[:]) + string(k.Key)
+		if seen[id] {
+			return false
+		}
+		seen[id] = true
+	}
+	return true
 }
